@@ -62,6 +62,21 @@ def run(ck):
         pad = (a - start % a) % a
         for seg in ("", '@segment "ADDR"\n'):
             progs.append(("z80", "%s@org %d\n@align %d\nendl:\n" % (seg, start, a))); meta.append((start, pad))
+    mprogs, mmeta = [], []
+    # the same statements as the body of a macro (recorded without its line breaks) that moves the origin right afterwards:
+    # the statement is checked where it stands, not at the end of the line
+    for arch, stmt, L, trailer in kinds:
+        if "\n" in stmt or rng.random() > (1.0 if thorough else 0.35):
+            continue
+        for k in (L - 1, L, L + 1):
+            if k < 1:
+                continue
+            start = TOP - k
+            t = "@macro mov1, 0\n%s\nendl:\n@org $4000\n@endmacro\n@org %d\nmov1\n%s\n" % (stmt, start, trailer)
+            mprogs.append((arch, t)); mmeta.append((start, L))
+    # string literals longer than any 16-bit counter
+    for n, org in ((65536, 0), (65535, 0), (65535, 1), (65537, 0), (65536, 1), (70000, 0)):
+        progs.append(("z80", '@org %d\n@db "%s"\nendl:\n' % (org, "a" * n))); meta.append((org, n))
     # an origin outside 0..$FFFF is never accepted (negative values, values a whole address space up), whatever follows
     for arch in asmk.ARCHES:
         for v in ("0 - 1", "0 - 3", "0 - 65536", "0 - 65535", "$80000000", "$ffffffff", "65536", "65537", "70000", "$7fffffff", "$10000 + $ffff"):
@@ -105,4 +120,18 @@ def run(ck):
                 if len(ck.violations) >= 3:
                     break
     asmk.k_check(ck, progs, impl, mod, icases, syms=True)
+    # the macro-wrapped statements (oracle only: the token-level model has no macros)
+    mc = [asm_case(a, text=t, files=None) if not incbin else asm_case(a, files=dict({"/w/main.asm": t}, **{"/w/" + n: b for n, b in incbin.items()})) for a, t in mprogs]
+    mres = [AsmResult(r) for r in run_cases(harness, [c.rstrip("\t") + ("\tsyms" if not c.endswith("syms") else "") for c in mc])]
+    ck.evaluations += len(mprogs)
+    for (arch, t), (start, L), a, c in zip(mprogs, mmeta, mres, mc):
+        want_ok = start + L <= TOP
+        ck.count("macro-wrapped:" + ("fits" if want_ok else "overflows") + ":" + a.kind)
+        if start + L >= TOP:
+            ck.nontriv(arch + t)
+        if want_ok != a.ok or a.crashed or (a.ok and a.syms.get("endl") not in (None, start + L)):
+            ck.violation("%s: statement of length %d starting at $%x inside a macro body that then moves the origin is %s (endl=%s); %r" % (
+                arch, L, start, "accepted" if a.ok else "rejected: " + (a.msg or a.kind)[-80:], a.syms.get("endl") if a.ok else None, t),
+                {"mode": "asm", "arch": arch, "source": t, "harness_case": c, "expected": "OK" if want_ok else "DIAG"})
+            break
     return ck
